@@ -6,7 +6,7 @@
    `contract_ok pol l` is the documented usage contract of the single-block policies (reusable_storage,
    placement_alloc, reusable_buffer_storage: one live frame at a time, placement memory large enough); it holds
    for every history of default / mtsafe / stack storage (c19_contract_free). *)
-From Cocls Require Import Base BaseProofs StorageDefs StorageProofs StorageMtProofs.
+From Cocls Require Import Base BaseProofs StorageDefs StorageProofs StorageMtProofs StorageOracleProofs.
 Local Open Scope Z_scope.
 
 Theorem c19_contract_free : forall pol l, contract_free pol = true -> contract_ok pol l = true.
@@ -82,6 +82,13 @@ Theorem c19_extra_placed : forall pol l i f, contract_ok pol l = true -> fget (f
   (p_x p = 0 -> xoff p sz = sz /\ n = sz).
 Proof. exact extra_placed. Qed.
 Print Assumptions c19_extra_placed.
+
+(* the decidable trace oracle that is run on the implementation's output accepts the model's own trace of every history
+   that ends with the storage destroyed: an oracle failure on the implementation is a deviation from all of the above *)
+Theorem c19_oracle_sound : forall pol ops,
+  c_up (snd (snd (run_g pol (map decode ops)))) = false -> st_oracle pol ops (st_run pol ops) = true.
+Proof. exact oracle_sound. Qed.
+Print Assumptions c19_oracle_sound.
 
 (* thread-safe variant, every interleaving *)
 Theorem c19_mt_exclusive : forall ops s i j fi fj, mt_reach ops s ->
